@@ -232,7 +232,7 @@ def check(ctx):
         {"fn": "FloatInstruction as push::instruction::Instruction<S>>::perform::{closure#", "what": "Div::div", "reason": "OrderedFloat<f64> division is IEEE float division and never panics", "guard": guard_float_div},
         {"fn": "int::clamp::Clamp as push::instruction::Instruction<S>>::perform::{closure#", "what": "Ord::clamp",
          "reason": "i64::clamp panics only when min > max; the bounds are swapped into order first", "guard": guard_clamp_ordered},
-        {"fn": "push_state::PushState::with_input::{closure#", "what": "panicking::panic_fmt",
+        {"fn": "push_state::PushState::with_input", "what": "panicking::panic_fmt",
          "reason": "documented proviso of the property: an input variable that was never bound", "guard": None},
     ] + rules_c04.stack_discharge()
     audit_panics(ctx, "R03.4", scope, discharge, floor=13)
